@@ -4,6 +4,8 @@ import (
 	"context"
 	"errors"
 	"fmt"
+	"os"
+	"strconv"
 	"strings"
 	"sync"
 	"sync/atomic"
@@ -20,7 +22,13 @@ import (
 // closeWatchdog is the bounded wait of the C18 shutdown oracles: the work in
 // flight is micro- to millisecond scale, so a component that has not shut down
 // after this long is parked, not slow (the goroutine dump decides).
-const closeWatchdog = 30 * time.Second
+var closeWatchdog = func() time.Duration {
+	// (debugging aid only: VERIF_WATCHDOG_S shortens the wait)
+	if v, err := strconv.Atoi(os.Getenv("VERIF_WATCHDOG_S")); err == nil && v > 0 {
+		return time.Duration(v) * time.Second
+	}
+	return 30 * time.Second
+}()
 
 // TGOp is one call a worker goroutine makes on the thread group.
 type TGOp struct {
